@@ -39,7 +39,7 @@ def handle : List String → Option String
   | "c11meas" :: kind :: npath :: rest => some <|
     match kind.toNat?, npath.toNat?, takeFloats 9 rest with
     | some k, some np, some ([lat, lon, alt, x, y, z, vx, vy, vz], []) =>
-      if k < 4 then fToStr (measure k np.toFloat lat lon alt [x, y, z, vx, vy, vz]) else "bad-op"
+      if k < 4 then fToStr (stationMeasure k np.toFloat lat lon alt [x, y, z, vx, vy, vz]) else "bad-op"
     | _, _, _ => "bad-op"
   | "c11expand" :: rest => some <|
     match takeFloats 18 rest with
